@@ -41,7 +41,7 @@ ROUTINES = ['eval_fixed', 'eval_bootstrap', 'eval_bootstrap_pattern', 'eval_boot
             'bootstrap_crossval', 'eval_dual_bootstrap', 'eval_dual_bootstrap_random']
 REQUIRED = ['check:' + r for r in ROUTINES] + ['check:seed_replay', 'stored_evaluations_rederived',
                                               'nan_samples_seen', 'rng_draws_observed', 'events_recorded',
-                                              'folds_refitted']
+                                              'folds_refitted', 'check:too_small_folds', 'cross_process_replays']
 REACH = ROUTINES + ['_internal_cv', '_concat_sampling', 'input_check_model', 'Result.__init__', 'bootstrap_sample',
                     'sets_k_fold', 'sets_random']
 FAIL_KEYS = ['routine', 'what', 'boot_type', 'grouped']
@@ -518,6 +518,44 @@ def run_crossval(ctx, tap):
             return
 
 
+def run_too_small_folds(ctx):
+    """test folds with exactly two conditions hold a single dissimilarity: every similarity is +-1 whatever the model, so
+    such folds are 'too small to evaluate' -- their stored evaluations are NaN, not numbers"""
+    from rsatoolbox.inference import crossvalsets as CS
+    rng = ctx.rng
+    n_cond = int(gen.pick(rng, [6, 8]))
+    n_rdm = int(rng.integers(3, 6))
+    data = gen.rdm_vectors(rng, n_rdm, n_cond, 'pos')
+    pd = {'puid': [int(v) for v in 100 + np.arange(n_cond)], 'pair': [int(i) // 2 for i in range(n_cond)]}
+    d = RDMs(data.copy(), rdm_descriptors={'uid': list(range(n_rdm))}, pattern_descriptors=copy.deepcopy(pd))
+    models = [ModelFixed(f'f{i}', RDMs(gen.rdm_vectors(rng, 1, n_cond, 'pos'), pattern_descriptors=copy.deepcopy(pd)))
+              for i in range(2)]
+    how = gen.pick(rng, ['leave_one_pair_out', 'k_fold_pairs'])
+    method = gen.pick(rng, ['cosine', 'corr'])
+    sig = dict(routine='crossval', method=method, folds=how, what='two_condition_folds')
+    wit = lambda **k: dict(routine='crossval', data=data, pd=pd, method=method, folds=how, **k)  # noqa: E731
+    try:
+        if how == 'leave_one_pair_out':
+            train_set, test_set, ceil_set = CS.sets_leave_one_out_pattern(d, 'pair')
+            pdesc = 'pair'
+        else:
+            train_set, test_set, ceil_set = CS.sets_k_fold_pattern(d, 'puid', k=n_cond // 2, random=False)
+            pdesc = 'puid'
+        if not all(t[0].n_cond == 2 for t in test_set):
+            ctx.count('rejected_fold_sizes')
+            return
+        res = E.crossval(models, d, train_set, test_set, ceil_set=ceil_set, method=method, pattern_descriptor=pdesc,
+                         calc_noise_ceil=False)
+    except Exception as exc:
+        ctx.fail('too_small_folds', dict(sig, exception=type(exc).__name__), f'{type(exc).__name__}: {exc}', wit())
+        return
+    ctx.case('too_small_folds', sig)
+    ev = np.asarray(res.evaluations, dtype=float)
+    if not np.all(np.isnan(ev)):
+        ctx.fail('too_small_folds', sig, f'test folds of two conditions were evaluated (values {ev.ravel()[:6].tolist()}) '
+                 f'instead of being marked NaN', wit())
+
+
 def run_boot_cv(ctx, routine, tap):
     rng = ctx.rng
     w = make_world(rng, ties_ok=False)
@@ -736,8 +774,77 @@ def run_boot_cv(ctx, routine, tap):
         ctx.fail('seed_replay', sig, 'rerun with the same seed does not reproduce the result', wit())
 
 
+REPLAY_SCRIPT = r'''
+import sys, json, hashlib
+import numpy as np
+from rsatoolbox.rdm import RDMs
+from rsatoolbox.model import ModelFixed
+from rsatoolbox.inference import eval_bootstrap_pattern, eval_bootstrap, bootstrap_crossval
+cfg = json.loads(sys.argv[1])
+rng = np.random.default_rng(cfg["gen_seed"])
+n_rdm, n_cond = cfg["n_rdm"], cfg["n_cond"]
+names = cfg["names"]
+data = RDMs(rng.uniform(0.1, 3, size=(n_rdm, n_cond * (n_cond - 1) // 2)),
+            rdm_descriptors={"subj": ["s%d" % i for i in range(n_rdm)]}, pattern_descriptors={"name": names})
+models = [ModelFixed("m%d" % i, RDMs(rng.uniform(0.1, 3, size=(1, n_cond * (n_cond - 1) // 2)),
+                                     pattern_descriptors={"name": names})) for i in range(2)]
+out = []
+for fn, kw in ((eval_bootstrap_pattern, dict(pattern_descriptor="name")),
+               (eval_bootstrap, dict(pattern_descriptor="name", rdm_descriptor="subj")),
+               (bootstrap_crossval, dict(pattern_descriptor="name", rdm_descriptor="subj", k_pattern=2, k_rdm=2))):
+    np.random.seed(cfg["seed"])
+    r = fn(models, data, method="cosine", N=cfg["N"], **kw)
+    out.append(hashlib.sha256(np.ascontiguousarray(np.nan_to_num(r.evaluations, nan=-7.0)).tobytes()
+                              + np.ascontiguousarray(np.nan_to_num(np.asarray(r.noise_ceiling, dtype=float), nan=-7.0)).tobytes()
+                              ).hexdigest())
+print(json.dumps(out))
+'''
+
+
+def run_cross_process_replay(ctx):
+    """a rerun with the same random seed reproduces the result exactly -- also in another interpreter session (another
+    string-hash randomisation), with conditions and RDMs grouped by string-valued descriptors"""
+    import json
+    import subprocess
+    import sys
+    from vlib import env
+    rng = ctx.rng
+    n_cond = int(rng.integers(7, 10))
+    names = [str(v) for v in rng.choice(['apple', 'bird', 'cat', 'dog', 'egg', 'fig', 'goat', 'hat', 'ink', 'jar', 'kite',
+                                         'lamp'], size=n_cond, replace=False)]
+    cfg = dict(gen_seed=int(rng.integers(2 ** 31)), seed=int(rng.integers(2 ** 31)), n_rdm=int(rng.integers(4, 7)),
+               n_cond=n_cond, names=names, N=6)
+    sig = dict(routine='cross_process_replay')
+    outs = []
+    for hs in ('1', '2', '3'):
+        e = env.child_env({'PYTHONHASHSEED': hs})
+        try:
+            r = subprocess.run([sys.executable, '-c', REPLAY_SCRIPT, json.dumps(cfg)], env=e, capture_output=True, text=True,
+                               timeout=300)
+        except subprocess.TimeoutExpired:
+            ctx.count('replay_subprocess_timeout')
+            return
+        if r.returncode != 0:
+            ctx.notes.append('cross-process replay script failed: ' + r.stderr[-300:])
+            ctx.count('replay_subprocess_failed')
+            return
+        outs.append(json.loads(r.stdout.strip().splitlines()[-1]))
+    ctx.case('seed_replay', sig)
+    ctx.count('cross_process_replays')
+    for k, routine in enumerate(('eval_bootstrap_pattern', 'eval_bootstrap', 'bootstrap_crossval')):
+        if len({o[k] for o in outs}) != 1:
+            ctx.fail('seed_replay', dict(sig, what='differs_across_processes', routine_replayed=routine),
+                     f'{routine}: the same seed gives different evaluations / noise ceilings in different interpreter '
+                     f'sessions (PYTHONHASHSEED 1, 2, 3) when conditions are grouped by a string descriptor',
+                     dict(cfg=cfg, digests=[o[k] for o in outs]))
+
+
 def run(ctx):
     n = ctx.n(24, 60)
+    if ctx.shard == 0:
+        run_cross_process_replay(ctx)
+    for _ in range(ctx.n(6, 10)):
+        run_too_small_folds(ctx)
     with RngTap() as tap:
         for it in range(n):
             if ctx.out_of_time():
